@@ -7,6 +7,7 @@ package blockchain
 import (
 	"bytes"
 	"fmt"
+	"os"
 	"sort"
 	"strings"
 	"testing"
@@ -348,6 +349,7 @@ func c16BFS(r *vlib.Run, flavour string, nkeys int, idx *uint64) (states int, de
 		if len(next) > 0 {
 			depth++
 		}
+		fmt.Fprintf(os.Stderr, "C16 %s/%d keys: depth %d, %d states, %d transitions so far\n", flavour, nkeys, depth, states, *idx)
 		frontier = next
 	}
 	return
@@ -372,6 +374,12 @@ func TestVerif_C16(t *testing.T) {
 	cfgs := []cfg{{"bare", 3}}
 	if r.Thorough() {
 		cfgs = append(cfgs, cfg{"bare", 4}, cfg{"persist", 3}, cfg{"build", 3})
+	}
+	if only := os.Getenv("C16_ONLY"); only != "" { // development knob: one configuration, e.g. persist:3
+		var c cfg
+		fmt.Sscanf(strings.Replace(only, ":", " ", 1), "%s %d", &c.flavour, &c.nkeys)
+		cfgs = []cfg{c}
+		r.Cap("C16_ONLY=" + only)
 	}
 	var idx uint64
 	total := 0
